@@ -9,6 +9,7 @@ Fault surfacing: every `unix.*` error result is followed by a panic/return in th
 (`facts_ok`), and the correspondence injects failures with strace.
 -/
 import GooseVerif.Lemmas.Disk
+import GooseVerif.Lemmas.ShortWrite
 import GooseVerif.Gen.DiskFacts
 import GooseVerif.Expected.DiskFacts
 
@@ -169,5 +170,22 @@ theorem open_checked (img : Bytes) (n : Nat) :
 example : openable BS (2 ^ 51 - 1) = true := by decide
 example : openable BS (2 ^ 51) = false := by decide
 example : openable BS (2 ^ 53) = false ∧ ((2 ^ 52 + 1) * BS) % 2 ^ 64 = 1 * BS := by decide
+
+/-! ### a failed or empty transfer inside `Write`'s retry loop is never silent (Model/ShortWrite; the loop's other theorems are in Props/C09)
+
+Whatever the kernel transferred before — any number of short, non-empty transfers that leave the block incomplete — an error or a
+transfer of zero bytes ends `Write` in a panic, never in a normal return. -/
+
+open GooseVerif.Model.ShortWrite in
+theorem write_failure_never_silent (v : List Byte) (off : Nat) (f : File) (pre rest : List Ans) (bad : Ans)
+    (hpre : ∀ a ∈ pre, ∃ k, a = .wrote k ∧ 0 < k) (hshort : (pre.map Ans.count).sum < v.length)
+    (hbad : bad = .err ∨ bad = .wrote 0) :
+    ∃ g, writeLoop v off f 0 (pre ++ bad :: rest) = some (.panic g) :=
+  loop_failure_surfaces v off bad rest hbad pre f 0 hpre (by omega)
+
+open GooseVerif.Model.ShortWrite in
+example : ∃ g, writeLoop [1, 2, 3, 4] 8 (fun _ => 9) 0 ([.wrote 1, .wrote 2] ++ .wrote 0 :: [.wrote 4]) = some (.panic g) :=
+  write_failure_never_silent [1, 2, 3, 4] 8 _ [.wrote 1, .wrote 2] [.wrote 4] (.wrote 0)
+    (by intro a ha; simp at ha; rcases ha with rfl | rfl <;> exact ⟨_, rfl, by omega⟩) (by decide) (Or.inr rfl)
 
 end GooseVerif.Props.C11
